@@ -537,6 +537,19 @@ class PrimMixin:
     def nd_searchsorted(self, args, kw, st, fr, node):
         return self.np_searchsorted(args, kw, st, fr, node)
 
+    def p_builtin_PyArray_ZEROS(self, args, kw, st, fr, node):
+        """numpy C API: PyArray_ZEROS(nd, dims, typenum, fortran) for nd == 1"""
+        nd, n, typenum = args[0], args[1], args[2]
+        if nd != 1:
+            raise Unsupported("PyArray_ZEROS with nd != 1", node)
+        kind = {12: "real", 11: "real", 7: "int", 9: "int", 5: "int", 0: "bool"}.get(typenum)
+        if kind is None:
+            raise Unsupported("PyArray_ZEROS typenum %r" % (typenum,), node)
+        if not fr.spec:
+            self.oblige(st, to_z3(n, "int") >= 0, "safety", "array-size-non-negative", node, fr)
+        self.use("numpy C API PyArray_ZEROS: a fresh zero-filled 1-d array of the requested length and type")
+        return self._alloc_const(n, kind, 0, st, fr, node)
+
     def p_builtin_approx(self, args, kw, st, fr, node):
         """equality over the reals (the run-time evaluator allows floating-point rounding)"""
         return to_z3(args[0], "real") == to_z3(args[1], "real")
